@@ -5,6 +5,8 @@
 //! * `copies_memory`   history → `export_snapshot`×2 → `import_snapshot`, `to_memory` (no file system)
 //! * `copies_files`    history → `save` → `open_in_memory`, `open` (+ the two above)
 //! * `hostile_exhaustive`  every truncation and every single-bit flip of small valid snapshots
+//! * `hostile_corpus`  every file of the committed libFuzzer seed corpus and of the corpus / artifact directories a
+//!   campaign left behind (`VERIF_FUZZ_CORPUS_C07`), judged by the same oracle as the other hostile sub-checks
 //! * `hostile_gen`     generated mutilations: multi-bit flips, field surgery (lengths, ids, discriminants),
 //!   splices, random bytes, trailing bytes, deep nesting
 //!
@@ -925,6 +927,51 @@ fn check_gen(pool: &WorkerPool, c: &GenCase) -> CaseResult {
 // run
 // ------------------------------------------------------------------------------------------------
 
+/// One byte string taken from a file (a libFuzzer seed / corpus entry / artifact).
+#[derive(Clone, Debug, Serialize, Deserialize)]
+pub struct RawCase {
+    pub hex: String,
+    #[serde(default)]
+    pub origin: String,
+}
+
+fn check_raw(pool: &WorkerPool, c: &RawCase) -> CaseResult {
+    let bytes = from_hex(&c.hex);
+    let outcome = judge_hostile(pool, &bytes)?;
+    // non-trivial: the bytes got past the header, i.e. the reader met at least one entity or the engine accepted them
+    let deep = matches!(snapfmt::parse(&bytes), Ok(ref p) if !p.nodes.is_empty()) || outcome.starts_with("accepted");
+    ok(deep, format!("{}:{outcome}", c.origin), hash_of(&bytes))
+}
+
+/// Files of the committed libFuzzer seed corpus (`fuzz/seeds/fuzz_snapshot/`) and, when `VERIF_FUZZ_CORPUS_C07` names
+/// directories (colon-separated; set by `check_c07_thorough.sh` to the corpus and artifact directories a campaign
+/// left behind), every file in them. Sorted by name so the enumeration is deterministic. Files above 64 KiB are
+/// skipped (the campaign runs with `-max_len=4096`).
+fn corpus_items() -> Vec<RawCase> {
+    let mut dirs: Vec<(std::path::PathBuf, &'static str)> = vec![(crate::driver::verif_root().join("fuzz/seeds/fuzz_snapshot"), "seed")];
+    if let Ok(v) = std::env::var("VERIF_FUZZ_CORPUS_C07") {
+        for d in v.split(':').filter(|d| !d.is_empty()) {
+            dirs.push((std::path::PathBuf::from(d), "campaign"));
+        }
+    }
+    let mut out = Vec::new();
+    let mut seen = BTreeSet::new();
+    for (d, origin) in dirs {
+        let Ok(rd) = std::fs::read_dir(&d) else { continue };
+        let mut files: Vec<_> = rd.filter_map(|e| e.ok()).map(|e| e.path()).filter(|p| p.is_file()).collect();
+        files.sort();
+        for f in files {
+            if let Ok(b) = std::fs::read(&f)
+                && b.len() <= 65536
+                && seen.insert(b.clone())
+            {
+                out.push(RawCase { hex: to_hex(&b), origin: origin.to_string() });
+            }
+        }
+    }
+    out
+}
+
 fn sample_bases(seed: u64, n: usize) -> Vec<Hist> {
     let mut runner = TestRunner::new(Config { rng_seed: RngSeed::Fixed(seed), failure_persistence: None, ..Config::default() });
     let strat = hist::small_hist_strategy();
@@ -989,8 +1036,22 @@ pub fn run(r: &mut Run) {
             items.push(ExhCase { base: base.clone(), pos, span });
         }
     }
+    // development aid: VERIF_C07_DUMP_SEEDS=<dir> writes the valid snapshots of the sampled bases as libFuzzer seeds
+    if let Ok(dir) = std::env::var("VERIF_C07_DUMP_SEEDS") {
+        let _ = std::fs::create_dir_all(&dir);
+        for base in sample_bases(hash_of(&(r.seed, "c07-bases")), 40) {
+            if let Ok(b) = base_bytes(&base)
+                && b.len() <= 2048
+            {
+                let _ = std::fs::write(format!("{dir}/{:016x}", hash_of(&b)), &b);
+            }
+        }
+    }
     let memo: BaseMemo = std::sync::Mutex::new(BTreeMap::new());
     r.enumerate("hostile_exhaustive", items, true, |c: &ExhCase| check_exhaustive(&pool, &memo, c));
+
+    // byte strings found by coverage-guided search (libFuzzer target fuzz/fuzz_targets/fuzz_snapshot.rs) judged by the same oracle
+    r.enumerate("hostile_corpus", corpus_items(), false, |c: &RawCase| check_raw(&pool, c));
 
     r.subcheck(
         "hostile_gen",
